@@ -429,7 +429,15 @@ class Flow:
         if isinstance(e, ast.Compare):
             return {("op", "cmp", ("const", norm(e)))}
         if isinstance(e, ast.JoinedStr):
-            return {("op", "fstring", ("const", norm(e)))}
+            parts = []
+            for v in e.values:
+                if isinstance(v, ast.Constant):
+                    parts.append(("const", v.value))
+                elif isinstance(v, ast.FormattedValue) and v.format_spec is None:
+                    parts.append(_one(T(v.value), v.value))
+                else:
+                    return {("op", "fstring", ("unknown", norm(e)))}
+            return {("op", "fstring") + tuple(parts)}
         if isinstance(e, ast.Dict):
             items = []
             for k, v in zip(e.keys, e.values):
@@ -632,3 +640,92 @@ def match(term, pattern, binds=None):
             return False
         return all(match(t, p, binds) for t, p in zip(term, pattern))
     return term == pattern
+
+
+def text_parts(t):
+    """A string-building term as a flat list of parts: python str for literal text, terms for inserted values.
+    Understands %-formatting with %s/%d, +, str.join over a display, str.format with {} / {0}, f-strings, str(x).
+    None when the term is not of that kind."""
+    k = t[0]
+    if k == "const":
+        return [t[1]] if isinstance(t[1], str) else [t]
+    if k == "op" and t[1] == "Add":
+        a, b = text_parts(t[2]), text_parts(t[3])
+        return None if a is None or b is None else _merge(a + b)
+    if k == "op" and t[1] == "Mod" and t[2][0] == "const" and isinstance(t[2][1], str):
+        args = list(t[3][2:]) if t[3][0] == "op" and t[3][1] == "tuple" else [t[3]]
+        import re
+        pieces = re.split(r"(%[sd]|%%)", t[2][1])
+        out = []
+        for p in pieces:
+            if p in ("%s", "%d"):
+                if not args:
+                    return None
+                sub = text_parts(args.pop(0))
+                out += sub if sub is not None else [None]
+            elif p == "%%":
+                out.append("%")
+            elif p:
+                if "%" in p:
+                    return None
+                out.append(p)
+        if args or None in out:
+            return None
+        return _merge(out)
+    if k == "op" and t[1] == "fstring":
+        out = []
+        for p in t[2:]:
+            sub = text_parts(p)
+            if sub is None:
+                return None
+            out += sub
+        return _merge(out)
+    if k == "call" and t[1] == "str" and t[2] is None and len(t[3]) == 1:
+        return text_parts(t[3][0]) if t[3][0][0] in ("const",) else [t[3][0]]
+    if k == "call" and t[1] == "join" and t[2] is not None and t[2][0] == "const" and len(t[3]) == 1 and t[3][0][0] == "op" and t[3][0][1] in ("list", "tuple"):
+        out = []
+        for i, x in enumerate(t[3][0][2:]):
+            if i:
+                out.append(t[2][1])
+            sub = text_parts(x)
+            if sub is None:
+                return None
+            out += sub
+        return _merge(out)
+    if k == "call" and t[1] == "format" and t[2] is not None and t[2][0] == "const" and isinstance(t[2][1], str):
+        import re
+        out, auto = [], 0
+        for p in re.split(r"(\{[^{}]*\})", t[2][1]):
+            if p.startswith("{") and p.endswith("}"):
+                fld = p[1:-1].split("!")[0]
+                if ":" in fld:
+                    return None
+                if fld == "":
+                    idx = auto
+                    auto += 1
+                elif fld.isdigit():
+                    idx = int(fld)
+                else:
+                    return None
+                if idx >= len(t[3]):
+                    return None
+                sub = text_parts(t[3][idx])
+                if sub is None:
+                    return None
+                out += sub
+            elif p:
+                out.append(p)
+        return _merge(out)
+    if k in ("attr", "item", "index", "pos", "elem", "param", "row", "call", "key", "val"):
+        return [t]
+    return None
+
+
+def _merge(parts):
+    out = []
+    for p in parts:
+        if isinstance(p, str) and out and isinstance(out[-1], str):
+            out[-1] += p
+        elif p != "":
+            out.append(p)
+    return out
